@@ -9,7 +9,7 @@ PID = "C06"
 LEVEL = "model_checking"
 RULE = ("residue types with 1, 2, 3 (planar), 4 (chiral, user template) and 5 atoms and a residue with a virtual site, in "
         "linear and branched molecules so that residues have 0-3 bonded neighbours, each neighbour built before or after, incl. molecules whose residue ids restart and a generated 3-atom template in 2-3 molecules; "
-        "backmapping factor {0.4, 1.0, 1.5, 2.0}; with and without pre-existing atom coordinates for a prefix; the optimiser answer at each "
+        "backmapping factor {0, 0.4, 1.0, 1.5, 2.0}; with and without pre-existing atom coordinates for a prefix; the optimiser answer at each "
         "residue is chosen from the real L-BFGS answer (default) and all 216 angle triples over {0, pi/2, pi, 3pi/2, 1.0, 2.5} "
         "(<=1 deviating residue per execution; thorough <=2 over a 27-triple subset). Oracle per backmapped residue: centre of "
         "geometry == residue position (1e-9); Gram matrix of (atoms - centre)/factor == Gram matrix of the template vectors taken "
@@ -86,7 +86,7 @@ def systems(tier):
             out.append(dict(types=[name], typedefs={name: TYPEDEFS[name]}, molecules=[(name, 1)], box=[4.0, 4.0, 4.0],
                             grid=[[1.0, 1.0, 1.0], [2.5, 2.5, 2.5]], volumes=VOLS, bld_pre=TEMPLATES, kwargs=dict(bfudge=bf)))
     # backmapping factors above 1 (the template is blown up, not shrunk)
-    for name, bf in (("LIN", 1.5), ("HUB", 2.0), ("SOLO", 1.5)):
+    for name, bf in (("LIN", 1.5), ("HUB", 2.0), ("SOLO", 1.5), ("SOLO", 0.0), ("LIN", 0.0)):       # 0: every atom on its residue position
         out.append(dict(types=[name], typedefs={name: TYPEDEFS[name]}, molecules=[(name, 1)], box=[4.0, 4.0, 4.0],
                         grid=[[1.0, 1.0, 1.0], [2.5, 2.5, 2.5]], volumes=VOLS, bld_pre=TEMPLATES, kwargs=dict(bfudge=bf), small_angles=True))
     # two molecules of the same type: copies must be congruent; second system has a prefix of atom coordinates supplied
@@ -165,6 +165,11 @@ def judge(sysd, res, choices, angle_options):
                 bad("atom-takes-template-of-own-name", f"residue {nd['resname']}: atoms {names} template {sorted(tmpl)}")
                 continue
             T = np.array([tmpl[nm] for nm in names], dtype=float)
+            if fudge == 0:
+                # the template scaled by 0: every atom sits on the residue position
+                if not np.abs(P - centre).max() <= 1e-9:
+                    bad("rigid-copy-of-template", f"molecule {mi} residue {nd['resid']} ({nd['resname']}): backmapping factor 0, atoms up to {np.abs(P - centre).max()} nm from the residue position")
+                continue
             Q = (P - centre) / fudge
             if not np.abs(gram(Q) - gram(T)).max() <= 1e-8:
                 bad("rigid-copy-of-template", f"molecule {mi} residue {nd['resid']} ({nd['resname']}): Gram matrices differ by {np.abs(gram(Q) - gram(T)).max()}")
@@ -195,7 +200,7 @@ def second_pass(sysd, res, choices, angle_options):
         for node in mm.nodes:
             if mm.nodes[node].get("backmap", True):
                 mm.nodes[node]["position"] = np.asarray(mm.nodes[node]["position"], dtype=float) + shift
-    f2 = 1.0 if sysd["kwargs"]["bfudge"] != 1.0 else 0.5
+    f2 = 1.0 if sysd["kwargs"]["bfudge"] not in (1.0,) else 0.5
     state = np.random.get_state()
     np.random.seed(12345)
     try:
